@@ -362,6 +362,23 @@ def c08_corpora(rng, quick):
     multi = [[("a", ("int",)), ("b", ("option", ("string",))), ("c", ("name", "E"))],
              [("mod", ("bool",)), ("match", ("option", ("name", "N"))), ("x_y", ("array", ("float",)))]]
     out = [("c8a", Corpus("org.example.c8a", [("S", S), ("E", E), ("N", N)], echo, multi))]
+    # systematic: every wrapper chain of length 0..2 over array / map / optional around every kind of element type
+    wr = ["array", "dict", "option"]
+    chains = [[]] + [[a] for a in wr] + [[a, b] for a in wr for b in wr if not (a == "option" and b == "option")]
+    inners = [("int",), ("string",), ("object",), ("name", "S"), ("name", "E"), ("struct", [("k", ("string",)), ("v", ("option", ("int",)))]),
+              ("enum", ["p", "q"]), ("set",)]
+    sysecho = []
+    for ch in chains:
+        for inner in inners:
+            t = inner
+            for w in reversed(ch):
+                t = (w, t)
+            if t not in echo:
+                sysecho.append(t)
+    if quick:
+        # the quick tier keeps the chains that end in a map or contain an anonymous type (the shapes with special cases in the generator)
+        sysecho = [t for t in sysecho if "dict" in json.dumps(t) or "struct" in json.dumps(t) or "enum" in json.dumps(t)]
+    out.append(("c8s", Corpus("org.example.c8s", [("S", S), ("E", E)], sysecho, [])))
     if not quick:
         # random corpora
         pool = [("bool",), ("int",), ("float",), ("string",), ("object",), ("set",)]
